@@ -109,6 +109,9 @@ type l4Case struct {
 	// database/sql has rolled the transaction back on its own before Commit / Rollback are
 	// called: they must all report that the transaction is over
 	BeginCancel bool `json:"beginCancel,omitempty"`
+	// GAOutcome (getall only): a non-nil *Outcome is passed in front of the slice arguments;
+	// GetAll clears it and goes on exactly as without it
+	GAOutcome bool `json:"gaOutcome,omitempty"`
 	PairOp     string `json:"pairOp,omitempty"`
 	AEnd   string `json:"aEnd,omitempty"`
 }
@@ -316,6 +319,9 @@ func genL4(r *rng.R) *l4Case {
 		if c.Ctx == "marker" && c.HasOutputs && r.Chance(1, 5) {
 			c.CancelAt = r.Intn(len(c.Calls))
 		}
+	}
+	if c.Op == "getall" && r.Chance(1, 4) {
+		c.GAOutcome = true
 	}
 	if c.Dests == "validmap" {
 		if !c.HasOutputs {
@@ -670,6 +676,9 @@ func runL4Case(c *l4Case) (obs *l4Obs) {
 		case "sliceptrint":
 			args = []any{&rows, &[]*int{}}
 		}
+		if c.GAOutcome {
+			args = append([]any{&sqlair.Outcome{}}, args...)
+		}
 		obs.Returns = append(obs.Returns, errText(qr.GetAll(args...)))
 		if c.Dests == "validmap" {
 			obs.Prior = len(ms) >= 1 && len(ms[0]) == 2 && ms[0]["a"] == int64(100) && ms[0]["b"] == "prior"
@@ -881,7 +890,11 @@ func runL4(args []string) {
 		}
 		caseJSON := map[string]any{"case": c, "replay": string(cb)}
 		if obs.Panic != "" {
-			rep.addCrash(Finding{Case: caseJSON, Kind: "crash", Detail: "panic: " + obs.Panic})
+			f := Finding{Case: caseJSON, Kind: "crash", Detail: "panic: " + obs.Panic}
+			rep.addCrash(f)
+			if c.Op == "iter" {
+				rep.addHolds("C14", f) // "for every sequence of Next, Get and Close calls an Iterator never panics"
+			}
 			return
 		}
 		resp, err := cl.Call(map[string]any{"k": "rt", "sub": "l4", "case": c, "obs": obs})
